@@ -453,9 +453,124 @@ def rule_contr(repo, tier):
     return res
 
 
+SINGULAR_AT_ZERO = {'sqrt', 'rsqrt', 'log', 'log2', 'log10', 'reciprocal'}
+
+
+@guarded
+def rule_sing(repo, tier):
+    """Kernels are differentiated by the correctors (rho' through autograd) at every residual, an exactly fitted sample (x = 0) included.  A
+    function whose derivative is singular at 0 (sqrt, log, 1/x) may sit on the differentiable path to the returned value only if its operand
+    is bounded away from zero BEFORE it is applied: x + positive constant, or a gather under the complement of an upper-bound mask (`x[~(sqrt(x)
+    < delta)]`).  Selecting afterwards (`x.sqrt()[~mask]`) does not help: backward multiplies the masked-out zero cotangent by the infinite local
+    derivative, 0 * inf = NaN.  Uses inside comparisons carry no gradient and are free."""
+    res = RuleResult('C09.SING', 'kernel forward: every sqrt / log / reciprocal on the differentiable path to the result has an operand bounded away '
+                     'from zero before it is applied (positive offset, or gathered under the complement of an upper-bound mask)', floor=3)
+    m = repo.module(KER)
+    for ci in m.classes.values():
+        f = ci.methods.get('forward')
+        if f is None:
+            continue
+        x = f.pos_params[1] if len(f.pos_params) > 1 else None
+        if x is None:
+            continue
+        assigns = {}
+        for n in ast.walk(f.node):
+            if isinstance(n, ast.Assign) and len(n.targets) == 1 and isinstance(n.targets[0], ast.Name):
+                assigns.setdefault(n.targets[0].id, []).append(n.value)
+
+        def upper_mask(e, depth=0):
+            """e is a boolean mask that holds only where the input is BELOW a bound: its complement bounds the input away from zero"""
+            if isinstance(e, ast.Name) and depth < 4:
+                return any(upper_mask(v, depth + 1) for v in assigns.get(e.id, [])) and len(assigns.get(e.id, [])) == 1
+            if isinstance(e, ast.Compare) and len(e.ops) == 1:
+                l, r = e.left, e.comparators[0]
+                lx = x in {n.id for n in ast.walk(l) if isinstance(n, ast.Name)}
+                rx = x in {n.id for n in ast.walk(r) if isinstance(n, ast.Name)}
+                if isinstance(e.ops[0], (ast.Lt, ast.LtE)) and lx and not rx:
+                    return True
+                if isinstance(e.ops[0], (ast.Gt, ast.GtE)) and rx and not lx:
+                    return True
+            return False
+
+        def lower_mask(e, depth=0):
+            if isinstance(e, ast.UnaryOp) and isinstance(e.op, ast.Invert):
+                return upper_mask(e.operand)
+            if isinstance(e, ast.Name) and depth < 4:
+                vs = assigns.get(e.id, [])
+                return len(vs) == 1 and lower_mask(vs[0], depth + 1)
+            if isinstance(e, ast.Compare) and len(e.ops) == 1:
+                l, r = e.left, e.comparators[0]
+                lx = x in {n.id for n in ast.walk(l) if isinstance(n, ast.Name)}
+                rx = x in {n.id for n in ast.walk(r) if isinstance(n, ast.Name)}
+                if isinstance(e.ops[0], (ast.Gt, ast.GtE)) and lx and not rx:
+                    return True
+                if isinstance(e.ops[0], (ast.Lt, ast.LtE)) and rx and not lx:
+                    return True
+            return False
+
+        def positive(e, depth=0):
+            """operand provably > 0 given input >= 0 (asserted by C09.GUARD) and positive hyper-parameters"""
+            if depth > 6:
+                return False
+            if isinstance(e, ast.Name):
+                vs = assigns.get(e.id, [])
+                return e.id != x and len(vs) == 1 and positive(vs[0], depth + 1)
+            if isinstance(e, ast.Subscript):
+                # gather of the input under a mask that bounds it from below
+                if x in {n.id for n in ast.walk(e.value) if isinstance(n, ast.Name)}:
+                    return lower_mask(e.slice) or positive(e.value, depth + 1)
+                return False
+            if isinstance(e, ast.BinOp) and isinstance(e.op, ast.Add):
+                def poscst(t):
+                    return (isinstance(t, ast.Constant) and isinstance(t.value, (int, float)) and t.value > 0) or \
+                        (isinstance(t, ast.BinOp) and isinstance(t.op, ast.Div) and poscst(t.left) and (dotted(t.right) or '').startswith('self.')) or \
+                        ((dotted(t) or '').startswith('self.') and dotted(t).split('.')[-1] in ('delta2', 'delta', 'c2', 'b'))
+                def nonneg(t):
+                    names = {n.id for n in ast.walk(t) if isinstance(n, ast.Name)}
+                    return names <= {x, 'self'} and not any(isinstance(n, (ast.Sub, ast.USub)) for n in ast.walk(t)) or \
+                        (isinstance(t, ast.Call) and isinstance(t.func, ast.Attribute) and t.func.attr == 'exp')
+                return (poscst(e.left) and nonneg(e.right)) or (poscst(e.right) and nonneg(e.left))
+            return False
+        # differentiable path: everything except comparison operands
+        in_compare = set()
+        for n in ast.walk(f.node):
+            if isinstance(n, ast.Compare):
+                for c in ast.walk(n):
+                    in_compare.add(id(c))
+            if isinstance(n, ast.Assert):
+                for c in ast.walk(n):
+                    in_compare.add(id(c))
+        # names that only feed comparisons (mask = x.sqrt() < d is handled above; norm = x.sqrt() used in a compare AND in the output is not)
+        n_sites = 0
+        for n in ast.walk(f.node):
+            if isinstance(n, ast.Call) and isinstance(n.func, ast.Attribute) and n.func.attr in SINGULAR_AT_ZERO and id(n) not in in_compare:
+                opnd = n.func.value
+            elif isinstance(n, ast.Call) and (dotted(n.func) or '').split('.')[-1] in SINGULAR_AT_ZERO and (dotted(n.func) or '').startswith(('torch.',)) \
+                    and n.args and id(n) not in in_compare:
+                opnd = n.args[0]
+            elif isinstance(n, ast.BinOp) and isinstance(n.op, ast.Pow) and isinstance(n.right, ast.Constant) and isinstance(n.right.value, float) \
+                    and n.right.value < 1 and id(n) not in in_compare:
+                opnd = n.left
+            else:
+                continue
+            if x not in {q.id for q in ast.walk(opnd) if isinstance(q, ast.Name)} and not any(
+                    isinstance(q, ast.Name) and q.id in assigns for q in ast.walk(opnd)):
+                continue        # a constant expression (math.log of hyper-parameters)
+            n_sites += 1
+            ok = positive(opnd)
+            res.inst({'function': f.fq, 'site': src(n)[:60], 'operand bounded away from zero before the call': ok}, (f.fq, src(n)))
+            if not ok:
+                res.add(Finding('C09.SING', f, '`%s` lies on the differentiable path of the kernel and its operand `%s` can be exactly zero (a perfectly fitted '
+                                'residual): the derivative there is infinite and a mask applied afterwards turns it into 0 * inf = NaN in rho\''
+                                % (src(n)[:60], src(opnd)[:40]), node=n))
+        if n_sites == 0:
+            res.inst({'function': f.fq, 'singular sites on the differentiable path': 0}, f.fq)
+    return res
+
+
 def _rules_core(repo, tier):
     return [rule_guard(repo, tier), rule_kind(repo, tier)] + rule_masks(repo, 'C09.MP', 'C09.GD', [(KER, 'Huber.forward')], floor=1) + \
-        [rule_unit(repo, tier), rule_sel_axis(repo, tier), rule_contr(repo, tier)]
+        [rule_unit(repo, tier), rule_sel_axis(repo, tier), rule_contr(repo, tier), rule_sing(repo, tier)]
 
 
 def rules(repo, tier):
